@@ -224,6 +224,21 @@ PROPS["C08"] = {
     "technique": "Lean 4 proof of language preservation by structural induction with atom lemmas over all code points on constants regenerated from the source; converter model tied differentially; end-to-end matching compared with the ECMA semantics model",
 }
 
+PROPS["C11"] = {
+    "lean_modules": ["Ogen.Props.C11"],
+    "suites": ["c11"],
+    "timeout": 7200,
+    "trusted_base": [
+        KERNEL, HARNESS,
+        "statements in lean/Ogen/Props/C11.lean; the models of C12 (path keys), C07 (reference resolution) and C16 (JSON Pointer) with their own ties (the suites of those properties; this check re-runs none of them)",
+        "NOT modelled and decided on the implementation only: every other part of parser and generator, bounded time/memory, the line:column clause. The mutation sweep (single-fault structural mutations of corpus specs, truncations, random bytes, 100- and 1000-deep nesting) runs ogen.Parse + gen.NewGenerator + WriteSource in memory under recover and a 30 s watchdog",
+    ],
+    "assumptions": ["a hung generation is detected by a watchdog, not interrupted"],
+    "level_text": "partial (modelled components only): path_key_total, ref_cycles_error, ref_depth_error, pointer_total are Lean theorems (totality is also built into the definitions: Lean accepts only terminating functions, Go panics are explicit outcomes). Totality of the rest of the generator is a mutation sweep over the corpus on every run, not a theorem.",
+    "level_note": "trusted: Lean kernel, statements, the component models and their ties (C12, C07, C16 checks), the mutation sweep harness.",
+    "technique": "Lean 4 totality theorems for the modelled components (explicit panic outcome / structural termination); single-fault mutation sweep of corpus specs through the real parser and generator under recover + watchdog",
+}
+
 # properties not claimed, with the reason (kept current; see DESIGN.md §7)
 NOT_CLAIMED = {
     "C10": "not applicable: determinism/race-freedom of generation lives in Go map iteration order, goroutine scheduling and the memory model; no executable model separate from the runtime can express it (DESIGN.md §7)",
